@@ -272,7 +272,13 @@ fn strategy(prop: Prop, camp: Campaign) -> impl Strategy<Value = Case> {
             None => cap % l.len() as u8,
         };
         let mut c = Case { engine: camp.engine, prop, kind, cap, cap2, univ: 1, mode, fuse: -1, ops };
-        c.univ = univ_for(capacity_of(&c), us);
+        if matches!(camp.engine, Engine::SetAlg | Engine::MapEq) {
+            c.cap %= 5;
+            let n = mmv::case::CAPS2[c.cap as usize].max(mmv::case::CAPS2[c.cap2 as usize % 5]);
+            c.univ = univ_for(n, us).min(12);
+        } else {
+            c.univ = univ_for(capacity_of(&c), us);
+        }
         c
     })
 }
